@@ -1114,6 +1114,122 @@ def check_C17(ctx):
                         'the runs use the real scheduler on 1..8 workers without forced schedules']
 
 
+# ----------------------------------------------------------------------------- C18 / C19: DAG Recorder
+DR_SETTINGS = ('default', 'nocollapse', 'collapse3', 'uncollapse3', 'uncollapseinf', 'count2', 'count5', 'countinf', 'target1', 'target4')
+
+
+def dr_setup(ctx):
+    """design run of DagRec, behaviours by simulation, simulator built from the profiler sources of the tree"""
+    run_design(ctx, 'DagRec', 'DagRec_quick.cfg' if ctx.quick else 'DagRec_thorough.cfg', heap='16g', timeout=7200)
+    meta = os.path.join(BUILD, 'tlc', 'drsim_%d' % os.getpid()); shutil.rmtree(meta, ignore_errors=True)
+    rc, out = java_tlc(['-simulate', 'num=%d' % (150 if ctx.quick else 1500), '-depth', '80', '-seed', str(ctx.seed), '-workers', '4', '-metadir', meta, '-config', 'DagRec_sim.cfg', 'DagRec.tla'],
+                       heap='4g', timeout=1800)
+    shutil.rmtree(meta, ignore_errors=True)
+    tl = os.path.join(ctx.work, 'dagrec_sim.out'); open(tl, 'w').write(out)
+    beh = os.path.join(ctx.work, 'behaviours.txt'); exp = os.path.join(ctx.work, 'expected.jsonl')
+    rc, o = sh('python3 %s/tools/dr_cases.py %s %s > %s' % (VERIF, tl, beh, exp), timeout=300)
+    ncases = sum(1 for _ in open(exp))
+    if rc != 0 or ncases == 0:
+        raise Infra('no DagRec behaviours: ' + out[-1000:])
+    P = os.path.join(REPO, 'src', 'profiler')
+    sim = os.path.join(BUILD, 'dr_sim')
+    srcs = ' '.join(os.path.join(P, f) for f in ('dag_recorder.c', 'dag_recorder_no_inl.c', 'chronological.c', 'gen_stat.c', 'gen_dot.c', 'gen_gpl.c', 'gen_text.c',
+                                                 'read_dag.c', 'options.c', 'interpolate_counters.c', 'papi_counters.c'))
+    rc, o = sh('gcc -O1 -g -w -DMYTH_VERIF -DDAG_RECORDER=2 -D_GNU_SOURCE -I%s -I%s/src -I%s/include -o %s %s/harness/dr_sim.c %s -lpthread -lm' % (P, REPO, REPO, sim, VERIF, srcs), timeout=600)
+    if rc != 0:
+        raise Infra('dr_sim build failed: ' + o[-2000:])
+    ctx.log('%d executions generated by TLC (simulation of DagRec), replayed under %d contraction settings' % (ncases, len(DR_SETTINGS)))
+    wd = os.path.join(ctx.work, 'dr'); os.makedirs(wd, exist_ok=True)
+
+    def one(setting):
+        outp = os.path.join(wd, 'out_%s.txt' % setting)
+        rc_, o_ = sh('%s %s %s %s > %s 2> %s.err' % (sim, beh, setting, wd, outp, outp), timeout=1800)
+        return setting, rc_, outp
+    with cf.ThreadPoolExecutor(max_workers=len(DR_SETTINGS)) as ex:
+        runs = list(ex.map(one, DR_SETTINGS))
+    ctx.cov['samples'].append({'execution': open(beh).read().split('BEGIN')[3][:600], 'expected_totals': json.loads(open(exp).readlines()[2])})
+    return beh, exp, ncases, runs, wd
+
+
+def check_C18(ctx):
+    beh, exp, ncases, runs, wd = dr_setup(ctx)
+    total = 0
+    for setting, rc_, outp in runs:
+        rc, o = sh('python3 %s/tools/dr_compare.py %s %s' % (VERIF, exp, outp), timeout=300)
+        r = json.loads(o.strip().split('\n')[-1])
+        total += r['compared']
+        if rc_ != 0 or r['compared'] != ncases:
+            ctx.violation('DAG Recorder died under contraction setting %s after %d of %d executions: %s' % (setting, r['compared'], ncases, open(outp + '.err').read()[-300:]), [beh, outp])
+        for i, diffs in r['bad'][:3]:
+            ctx.violation('contraction setting %s, execution %d: %s' % (setting, i, '; '.join(diffs)), [beh, outp, exp])
+    ctx.cov['traces_validated_against_impl'] = total
+    ctx.cov['behaviours_replayed_into_impl'] = total
+    ctx.log('S->C %d (execution, setting) pairs compared with the specification totals' % total)
+    # binding self-test: a wrong expectation must be noticed
+    wrong = os.path.join(ctx.work, 'expected_wrong.jsonl')
+    lines = [json.loads(l) for l in open(exp)]
+    lines[0]['work'] += 1; lines[1]['e_other_cont'] += 1
+    open(wrong, 'w').write('\n'.join(json.dumps(l) for l in lines) + '\n')
+    rc, o = sh('python3 %s/tools/dr_compare.py %s %s' % (VERIF, wrong, runs[0][2]), timeout=300)
+    if json.loads(o.strip().split('\n')[-1])['nbad'] < 2:
+        raise Infra('bind self-test: corrupted expected totals were not noticed')
+    ctx.cov['bind_selftest'].append({'corruption': 'expected work / other-cont edge count changed', 'rejected': True})
+    ctx.assumptions += ['executions with <= 4 tasks, <= 3 interval-ending actions per task, 3 workers (simulation) and the exhaustive design run of DagRec within its bounds',
+                        'the recorder is driven by a single OS thread through its public entry points with explicit worker ids and a virtual clock']
+
+
+def check_C19(ctx):
+    beh, exp, ncases, runs, wd = dr_setup(ctx)
+    total = 0
+    jsons = []
+    for setting, rc_, outp in runs:
+        n = 0
+        for l in open(outp):
+            p_ = l.split()
+            if not p_ or not p_[0].isdigit():
+                continue
+            n += 1
+            kv = dict(x.split('=', 1) for x in p_[1:])
+            for key, what in (('roundtrip', 'dump / read round trip'), ('chrono', 'chronological replay of the dumped DAG'), ('shrink', 'conversion with shrinking')):
+                if kv.get(key) != 'ok' and len(ctx.violations) < 6:
+                    ctx.violation('%s fails under setting %s for execution %s: %s' % (what, setting, p_[0], kv.get(key)), [beh, outp])
+        if rc_ != 0 or n != ncases:
+            ctx.violation('DAG Recorder died under contraction setting %s after %d of %d executions' % (setting, n, ncases), [beh, outp])
+        total += n
+        jsons.append(os.path.join(wd, 'dr_%s.json' % setting))
+    # TLC evaluates the well-formedness predicates on every dumped-and-re-read DAG and on its shrunk conversion
+    def wf(path):
+        meta = os.path.join(BUILD, 'tlc', 'pidag_%d_%s' % (os.getpid(), os.path.basename(path))); shutil.rmtree(meta, ignore_errors=True)
+        rc, out = java_tlc(['-workers', '1', '-metadir', meta, '-config', 'PiDag.cfg', 'PiDag.tla'], heap='3g', timeout=1800, env={'DAGS': path})
+        shutil.rmtree(meta, ignore_errors=True)
+        m = re.search(r'(\d+) states generated', out)
+        return path, ('No error has been found' in out), int(m.group(1)) if m else 0, out
+    with cf.ThreadPoolExecutor(max_workers=NCPU) as ex:
+        res = list(ex.map(wf, jsons))
+    ndags = 0
+    for path, ok, n, out in res:
+        ndags += n
+        if not ok:
+            f = path + '.tlc'; open(f, 'w').write(out)
+            m = re.search(r'Error: (.*)', out)
+            ctx.violation('a dumped DAG is not well formed (%s): %s' % (os.path.basename(path), m.group(1) if m else 'rejected'), [path, f])
+    ctx.cov['states'] += ndags; ctx.cov['transitions'] += ndags
+    ctx.cov['traces_validated_against_impl'] = ndags
+    ctx.cov['dags_checked_by_tlc'] = ndags
+    ctx.log('%d dumped / converted DAGs checked by TLC against PiDag.tla; %d round trips' % (ndags, total))
+    # binding self-test: corrupt one exported DAG in two ways; TLC must reject both
+    src = [json.loads(l) for l in open(jsons[1])]
+    big = next(d for d in src if d['m'] >= 3)
+    for name, fn in (('edge_endpoint_outside', lambda d: d['edges'][1].__setitem__('v', d['n'] + 3)),
+                     ('edges_not_grouped_by_source', lambda d: d['edges'].reverse())):
+        d2 = json.loads(json.dumps(big)); fn(d2)
+        p_ = os.path.join(ctx.work, 'bad_%s.json' % name); open(p_, 'w').write(json.dumps(d2) + '\n')
+        if wf(p_)[1]:
+            raise Infra('bind self-test: corrupted DAG (%s) accepted by PiDag.tla' % name)
+        ctx.cov['bind_selftest'].append({'corruption': name, 'rejected': True})
+    ctx.assumptions += ['DAGs of the enumerated executions only (<= 4 tasks); string table compared by size only']
+
+
 def check_C12(ctx):
     std_check(ctx, [('MC_Core', 'MC_Core_small.cfg')],
               lambda rng: gen_core_prog(rng, maxb=10, flagset=(0, F_STACK, F_STACK, F_PF | F_STACK, F_ATTR, F_DETACH | F_STACK, F_PF)),
@@ -1146,7 +1262,7 @@ def check_C14(ctx):
 
 
 CHECKS = {'C01': check_C01, 'C02': check_C02, 'C04': check_C04, 'C09': check_C09, 'C10': check_C10, 'C11': check_C11, 'C05': check_C05, 'C06': check_C06, 'C07': check_C07,
-          'C08': check_C08, 'C12': check_C12, 'C13': check_C13, 'C14': check_C14, 'C15': check_C15, 'C17': check_C17, 'C20': check_C20}
+          'C08': check_C08, 'C12': check_C12, 'C13': check_C13, 'C14': check_C14, 'C15': check_C15, 'C17': check_C17, 'C18': check_C18, 'C19': check_C19, 'C20': check_C20}
 
 
 def main():
